@@ -11,6 +11,8 @@ Fam == CASE Family = "derived-quick" -> DerivedFamily(FALSE)
          [] Family = "core-quick"    -> CoreFamily(2)
          [] Family = "core-full"     -> CoreFamily(3)
          [] Family = "fault"         -> FaultFamily
+         [] Family = "lists-quick"   -> ListFamily(FALSE)
+         [] Family = "lists-full"    -> ListFamily(TRUE)
          [] Family = "tail-fin-1"    -> TailFinFamily(1, {0, 1, 3})
          [] Family = "tail-fin-2"    -> TailFinFamily(2, {3})
          [] Family = "tail-inf-1"    -> TailInfFamily(1)
@@ -109,6 +111,32 @@ FaultLaw ==
 TailResultLaw ==
   (Done /\ FamSeq[pid].tag[1] = "tail") =>
      results[Len(results)].r = [k |-> "value", v |-> MkInt(FamSeq[pid].tag[5])]
+
+(* C11: laws of the list library, each stated on the result the machine computed for one call *)
+ArgOf(f, i) == LET e == f.as[i] IN IF e.t = "lit" THEN e.v ELSE e.d
+ListLaw ==
+  (Done /\ FamSeq[pid].tag[1] = "list") =>
+    LET f == Forms[1]
+        r == results[1].r
+        kind == FamSeq[pid].tag[2]
+    IN CASE kind = "append2" /\ r.k = "value" ->      \* length adds up, elements in order, last argument shared as tail
+              LET a == ArgOf(f, 1) b == ArgOf(f, 2) IN
+                Elems(r.v) = Elems(a) \o Elems(b) /\ LastCdr(r.v) = LastCdr(b)
+         [] kind = "append3" /\ r.k = "value" ->      \* associativity: (append a b c) lists a's, b's then c's elements
+              Elems(r.v) = Elems(ArgOf(f, 1)) \o Elems(ArgOf(f, 2)) \o Elems(ArgOf(f, 3))
+         [] kind = "index" ->                          \* list-ref = car of list-tail; a too short list is an error, never a value
+              LET l == ArgOf(f, 1) k == f.as[2].v.v IN
+                IF k < 0 \/ k > Len(Elems(l)) \/ (f.f.x = "list-ref" /\ k = Len(Elems(l))) THEN r.k = "error"
+                ELSE r.k = "value" /\ (f.f.x = "list-ref" => r.v = Elems(l)[k + 1])
+                                 /\ (f.f.x = "list-tail" => Elems(r.v) = SubSeq(Elems(l), k + 1, Len(Elems(l))))
+         [] kind = "map" /\ r.k = "value" ->            \* the procedure is called once per element, in list order
+              results[1].out = Elems(ArgOf(f, 2)) /\ (f.f.x = "map" => Len(Elems(r.v)) = Len(Elems(ArgOf(f, 2))))
+         [] kind = "fold" /\ r.k = "value" ->           \* fold-left visits left to right, fold-right right to left
+              LET es == Elems(ArgOf(f, 3)) IN
+                results[1].out = (IF f.f.x = "fold-left" THEN es ELSE [i \in DOMAIN es |-> es[Len(es) + 1 - i]])
+         [] kind = "mem" /\ r.k = "value" ->            \* the first sublist whose car is the object, or #f
+              (r.v = False \/ (r.v.t = "pair" /\ Eqv(r.v.a, ArgOf(f, 1))))
+         [] OTHER -> TRUE
 
 Emit == Done => PrintT(<<"VEC", ToJson([forms |-> Forms, tag |-> FamSeq[pid].tag, results |-> results])>>)
 =============================================================================
